@@ -38,6 +38,9 @@ pub struct BloomCase {
     pub kb: Vec<[u8; 4]>,
     pub kprobes: Vec<[u8; 4]>,
     pub combined_with_bloom: bool,
+    /// filter B is built with another hasher count (same bit budget): a merge must be refused or stay free of false negatives
+    #[serde(default)]
+    pub b_hashers: Option<usize>,
 }
 
 struct Provider {
@@ -82,8 +85,9 @@ pub fn bloom_strategy() -> BoxedStrategy<BloomCase> {
         prop::collection::vec(k4_strategy(), 0..20),
         prop::collection::vec(k4_strategy(), 0..20),
         any::<bool>(),
+        prop_oneof![3 => Just(None), 2 => (0usize..6).prop_map(Some)],
     )
-        .prop_map(|((elements, hashers, max_bits, fpr_millis), a, b, probes, file_offset, ka, kb, kprobes, combined_with_bloom)| BloomCase { elements, hashers, max_bits, fpr_millis, a, b, probes, file_offset: file_offset % 700, ka, kb, kprobes, combined_with_bloom })
+        .prop_map(|((elements, hashers, max_bits, fpr_millis), a, b, probes, file_offset, ka, kb, kprobes, combined_with_bloom, b_hashers)| BloomCase { elements, hashers, max_bits, fpr_millis, a, b, probes, file_offset: file_offset % 700, ka, kb, kprobes, combined_with_bloom, b_hashers })
         .boxed()
 }
 
@@ -102,7 +106,10 @@ pub fn run_bloom(c: &BloomCase, _dir: &Path) -> Result<CaseOut, Failure> {
     let mut queries = 0u64;
     let cfg = cfg_of(c);
     let a = Bloom::new(cfg.clone());
-    let b = Bloom::new(cfg.clone());
+    let b = match c.b_hashers {
+        Some(h) => Bloom::new(BloomConfig { hashers_count: h, ..cfg.clone() }),
+        None => Bloom::new(cfg.clone()),
+    };
     for k in &c.a {
         if let Err(e) = a.add(k) {
             return fail("bloom/add-err", format!("{:#}", e));
@@ -167,6 +174,9 @@ pub fn run_bloom(c: &BloomCase, _dir: &Path) -> Result<CaseOut, Failure> {
     let mut m = a.clone();
     if m.checked_add_assign(&b) {
         labels.insert("merged".to_string());
+        if c.b_hashers.map_or(false, |h| h != c.hashers) {
+            labels.insert("merged_across_hasher_counts".to_string());
+        }
         for k in c.a.iter().chain(c.b.iter()) {
             queries += 1;
             if mem(&m, k) == FilterResult::NotContains {
@@ -176,6 +186,9 @@ pub fn run_bloom(c: &BloomCase, _dir: &Path) -> Result<CaseOut, Failure> {
     }
     // a filter merged with an off-loaded one must refuse (it cannot know the bits)
     let mut m2 = a.clone();
+    if c.b_hashers.map_or(false, |h| h != c.hashers) {
+        labels.insert("merge_operand_with_other_hasher_count".to_string());
+    }
     if m2.checked_add_assign(&off) {
         return fail("bloom/merge-offloaded-accepted", "checked_add_assign returned true for an off-loaded operand".into());
     }
@@ -488,7 +501,7 @@ pub fn run(ctx: &RunCtx) -> PropResult {
     PropResult {
         report,
         level: "exploration",
-        rule: "Three generated domains. (bloom) bloom configs with 0-5 hashers, bit budgets 0..5000 (mostly not multiples of 64), zero sizes, key sets of 0-120 byte strings of length 0-300: every added key is never denied in memory, after to_raw/from_raw, through contains_in_file over the serialized bytes at a generated offset with the buffer in memory and off-loaded (in-file answer must EQUAL the in-memory answer for every probe, added or not), after merge; range and combined filters likewise incl. clone and round trip. (hier) HierarchicalFilters<ArrayKey<4>, CombinedFilter, MockBlob> with group size 2..9 under push/pop/remove/offload(level)/reload/add_to_parents scripts: after every op every key of every present child is reachable through iter_possible_childs[_rev], check_filter[_fast] and the root filter. (history) storage histories with bloom on/off, offload at levels 0..2, deletes into closed blobs, restore + writes + close, restarts: check_filters / BloomProvider::check_filter never deny a stored key and read still finds every model-present key. False positives are never flagged. Non-trivial: bloom = keys added with >=1 hasher and (bit budget not multiple of 64 or buffer off-loaded); hier = more childs than the group size and a pop/remove/offload happened; history = >=2 closed blobs and an offload, restore or delete-in-closed. distinct = FNV hash of the serialized case.".into(),
+        rule: "Three generated domains. (bloom) bloom configs with 0-5 hashers, bit budgets 0..5000 (mostly not multiples of 64), zero sizes, key sets of 0-120 byte strings of length 0-300: every added key is never denied in memory, after to_raw/from_raw, through contains_in_file over the serialized bytes at a generated offset with the buffer in memory and off-loaded (in-file answer must EQUAL the in-memory answer for every probe, added or not), after merge (the second filter also built with another hasher count over the same bit budget: the merge must be refused or stay free of false negatives); range and combined filters likewise incl. clone and round trip. (hier) HierarchicalFilters<ArrayKey<4>, CombinedFilter, MockBlob> with group size 2..9 under push/pop/remove/offload(level)/reload/add_to_parents scripts: after every op every key of every present child is reachable through iter_possible_childs[_rev], check_filter[_fast] and the root filter. (history) storage histories with bloom on/off, offload at levels 0..2, deletes into closed blobs, restore + writes + close, restarts: check_filters / BloomProvider::check_filter never deny a stored key and read still finds every model-present key. False positives are never flagged. Non-trivial: bloom = keys added with >=1 hasher and (bit budget not multiple of 64 or buffer off-loaded); hier = more childs than the group size and a pop/remove/offload happened; history = >=2 closed blobs and an offload, restore or delete-in-closed. distinct = FNV hash of the serialized case.".into(),
         assumptions: common_assumptions(),
     }
 }
